@@ -44,6 +44,25 @@ fn gen_smx(rng: &mut Rng, nobj: usize, ncp: usize, dirty: bool) -> Vec<u8> {
     v
 }
 
+/// a canonical file in which one count is large (payload bytes are a fixed pattern): which = pth-nodes | smx-objects | smx-points | smx-tris | smx-cps
+fn gen_big(which: &str, n: usize) -> (Fmt, Vec<u8>) {
+    let pat = |len: usize, salt: usize| -> Vec<u8> { (0..len).map(|i| ((i * 7 + salt) % 251) as u8).collect() };
+    if which == "pth-nodes" {
+        let mut v = b"LFSPTH".to_vec(); v.extend([0, 0]); v.extend((n as i32).to_le_bytes()); v.extend(0i32.to_le_bytes());
+        v.extend(pat(40 * n, 3)); return (Fmt::Pth, v);
+    }
+    let mut v = b"LFSSMX".to_vec(); v.extend([0, 1, 2, 3, 4, 5]); v.extend([0; 4]);
+    let mut t = b"Big".to_vec(); t.resize(32, 0); v.extend(t); v.extend([1, 2, 3]); v.extend([0; 9]);
+    let (nobj, np, nt, ncp) = match which { "smx-objects" => (n, 0, 0, 1), "smx-points" => (1, n, 1, 1), "smx-tris" => (1, 3, n, 1), _ => (1, 1, 1, n) };
+    v.extend((nobj as i32).to_le_bytes());
+    for o in 0..nobj {
+        v.extend(pat(16, o)); v.extend((np as i32).to_le_bytes()); v.extend((nt as i32).to_le_bytes());
+        v.extend(pat(16 * np, o + 1)); for k in 0..nt { v.extend(pat(6, k)); v.extend([0, 0]); }
+    }
+    v.extend((ncp as i32).to_le_bytes()); v.extend(pat(4 * ncp, 9));
+    (Fmt::Smx, v)
+}
+
 pub fn run(a: &Args) {
     let check = |fmt: Fmt, b: &[u8], canonical: bool, st: &mut Stats| -> String {
         let tag = if fmt == Fmt::Pth { "pth" } else { "smx" }; let id = format!("{tag} {}", if b.len() <= 4096 { hex(b) } else { format!("<{} bytes>", b.len()) });
@@ -59,6 +78,8 @@ pub fn run(a: &Args) {
             },
         }
     };
+    if let Some(r) = &a.replay { if let Some(rest) = r.strip_prefix("big ") { let t: Vec<&str> = rest.split_whitespace().collect(); let (fmt, b) = gen_big(t[0], t[1].parse().unwrap());
+        match parse_write(fmt, &b) { Some(Ok((w, _, pos))) if pos == b.len() && w == b => { println!("PASS"); std::process::exit(0) }, other => { println!("FAIL [C17] canonical file `{r}` ({} bytes): {}", b.len(), match other { Some(Ok((w, _, _))) => format!("re-writes to {} bytes / differs", w.len()), Some(Err(())) => "rejected or cannot be written back".into(), None => "panic".into() }); std::process::exit(1) } } } }
     if let Some(r) = &a.replay { let t: Vec<&str> = r.split_whitespace().collect(); let mut st = Stats::default(); let o = check(if t[0] == "pth" { Fmt::Pth } else { Fmt::Smx }, &unhex(t[1]), t.get(2) == Some(&"canonical"), &mut st); if st.failures_total > 0 { println!("FAIL {}", st.failures[0].0.len()); std::process::exit(1) } else { println!("PASS {}", &o[..o.len().min(60)]); return } }
     let mut rng = Rng::new(a.seed);
     let mut st = Stats::default(); let mut out = Out::new(&a.out);
@@ -88,6 +109,22 @@ pub fn run(a: &Args) {
         // inner SMX counts (points / triangles of the first object; checkpoints)
         let mut b = gen_smx(&mut rng, 1, 1, false); b[80..84].copy_from_slice(&cnt.to_le_bytes()); let o = check(Fmt::Smx, &b, false, &mut st); st.evaluations += 1; if o != "E" { st.fail(format!("[C17] SMX object announcing {cnt} points is accepted"), format!("smx {}", hex(&b))); } out.case(&format!("smx {}", hex(&b)), &o);
         let mut b = gen_smx(&mut rng, 0, 1, false); b[64..68].copy_from_slice(&cnt.to_le_bytes()); let o = check(Fmt::Smx, &b, false, &mut st); st.evaluations += 1; if o != "E" { st.fail(format!("[C17] SMX announcing {cnt} checkpoints is accepted"), format!("smx {}", hex(&b))); } out.case(&format!("smx {}", hex(&b)), &o);
+    }
+    // counts at and beyond the integer widths a writer might narrow to (255/256, 65535/65536): canonical files must re-write identically
+    for which in ["pth-nodes", "smx-objects", "smx-points", "smx-tris", "smx-cps"] {
+        for n in [255usize, 256, 257, 32767, 32768, 65535, 65536, 65537, 70001] {
+            if !a.thorough() && n > 257 && n != 65536 && n != 32768 { continue; }
+            let (fmt, b) = gen_big(which, n);
+            let (r, peak) = peak_during(|| parse_write(fmt, &b)); st.evaluations += 1; st.distinct_nontrivial += 1;
+            let id = format!("big {which} {n}");
+            if peak > 16 * b.len() + (256 << 10) { st.fail(format!("[C17] parsing the {}-byte file `{id}` allocated {peak} bytes", b.len()), id.clone()); }
+            match r {
+                Some(Ok((w, _, pos))) => if pos != b.len() || w != b { st.fail(format!("[C17] a canonical file with {n} {which} ({} bytes) re-writes to {} bytes / differs", b.len(), w.len()), id.clone()); },
+                Some(Err(())) => st.fail(format!("[C17] a canonical file with {n} {which} is rejected or cannot be written back"), id.clone()),
+                None => st.fail(format!("[C17] a canonical file with {n} {which} makes the parser or writer panic"), id.clone()),
+            }
+            st.bump("large-count canonical files");
+        }
     }
     // random bytes (with and without the magic)
     for i in 0..(if a.thorough() { 200_000 } else { 20_000 }) { let len = rng.below(200) as usize; let mut b = rng.bytes(len); if i % 2 == 0 && b.len() >= 6 { b[..6].copy_from_slice(if i % 4 == 0 { b"LFSPTH" } else { b"LFSSMX" }); } st.evaluations += 1; let fmt = if i % 4 < 2 { Fmt::Pth } else { Fmt::Smx }; let o = check(fmt, &b, false, &mut st); let coff = if fmt == Fmt::Pth { 8 } else { 60 }; let small = b.len() < coff + 4 || u32::from_le_bytes([b[coff], b[coff + 1], b[coff + 2], b[coff + 3]]) < 50_000; if i % 20 == 0 && small { out.case(&format!("{} {}", if fmt == Fmt::Pth { "pth" } else { "smx" }, hex(&b)), &o); } }
